@@ -45,8 +45,17 @@ def cases_for(ctx):
     cases.append({'behaviours': [E, 'die_idle', E, D, E, E], 'recycle': 5, 'consume': 'full'})
     # a hung worker whose replayed code installed a SIGTERM handler must still be gone afterwards
     cases.append({'behaviours': [E, 'hang_sigterm_ignored', E], 'recycle': 3, 'consume': 'full'})
+    # Ctrl-C: SIGINT reaches the whole process group (consumer and workers) while a replay hangs; the run is abandoned
+    cases.append({'behaviours': [E, 'hang', E], 'recycle': 3, 'consume': ['sigint', 2]})
+    # a host process that ignores SIGCHLD (children are reaped by the kernel, their exit status is never delivered)
+    cases.append({'behaviours': [E, E, 'hang', E, E], 'recycle': 3, 'consume': 'full', 'host': 'sigchld_ignored'})
     if ctx.quick:
         return cases
+    cases.append({'behaviours': ['hang', E], 'recycle': 1, 'consume': ['sigint', 1]})
+    cases.append({'behaviours': [E, E, E, 'hang'], 'recycle': 2, 'consume': ['sigint', 4]})
+    cases.append({'behaviours': ['exit', E, 'late', E], 'recycle': 2, 'consume': 'full', 'host': 'sigchld_ignored'})
+    cases.append({'behaviours': [E, 'hang_sigterm_ignored', E, 'die_idle', E, E], 'recycle': 5, 'consume': 'full', 'host': 'sigchld_ignored'})
+    cases.append({'behaviours': [E, D, E, E, E], 'recycle': 2, 'consume': ['drop', 2], 'host': 'sigchld_ignored'})
     rng = ctx.rng
     for b, pos, recycle in itertools.product(H.FATAL, [0, 1, 2, 3], [1, 2, 3]):
         seq = [E, D, E, E]
@@ -70,6 +79,11 @@ def judge(ctx, case, res, w):
     beh = case['behaviours']
     n_expected = len(beh) if case['consume'] == 'full' else min(len(beh), case['consume'][1])
     problems = []
+    if case['consume'] != 'full' and case['consume'][0] == 'sigint':
+        n_expected = case['consume'][1] - 1          # the interrupt arrives while replay number k hangs
+        if 'KeyboardInterrupt' not in (res['error'] or ''):
+            ctx.inconclusive('harness: the interrupt did not reach the consumer (%s)' % res['error'])
+            return problems
     if case['consume'] == 'full' and (not res['finished'] or res['error']):
         problems.append(('comparison run did not finish normally: %s' % (res['error'] or 'generator not exhausted'), {}))
     if len(res['results']) != n_expected:
